@@ -97,6 +97,33 @@ class Facts:
             self.adt_by_short.setdefault(a["name"], a)
         self.impls = d["impls"]
         self.ast = d["ast"]
+        self._resolve_sealed_defaults()
+
+    def _resolve_sealed_defaults(self):
+        """A call `<T as Tr>::m` on a type parameter, where the crate trait Tr has a blanket impl
+        `impl<T: ..> Tr for T` (so no other impl can exist) and m is a provided method with a body in
+        the crate, can only run that body: resolve it like a local call."""
+        blanket = set()
+        for i in self.impls:
+            if i.get("of_trait") and i["self_ty"].get("k") == "param" and i.get("trait_krate") == self.d["crate"]:
+                overridden = {it["name"] for it in i.get("items", [])}
+                blanket.add((i["trait"], frozenset(overridden)))
+        if not blanket:
+            return
+        for f in self.fns:
+            for b in f.mir["blocks"]:
+                t = b["term"]
+                if t["k"] != "call":
+                    continue
+                c = t["callee"]
+                if c.get("local") and c.get("trait") and not c.get("resolved") and (c.get("self_ty") or {}).get("k") == "param":
+                    for tr, over in blanket:
+                        if tr == c["trait"] and c["name"] not in over and c["path"] in self.fn_by_path:
+                            c["resolved"] = c["path"]
+                            c["resolved_args"] = c.get("path_args")
+                            c["resolved_local"] = True
+                            c["resolved_krate"] = self.d["crate"]
+                            c["sealed_default"] = True
 
     # ---- inventory ----
     def impls_of(self, trait_short, struct_short=None):
